@@ -260,7 +260,9 @@ func (h *c07BucketH) NestedReadBucket(key []byte) walletdb.ReadBucket {
 func (h *c07BucketH) ReadCursor() walletdb.ReadCursor {
 	panic("c07 fake kvdb: ReadCursor is not used by the circuit map")
 }
-func (h *c07BucketH) Sequence() uint64 { panic("c07 fake kvdb: Sequence is not used by the circuit map") }
+func (h *c07BucketH) Sequence() uint64 {
+	panic("c07 fake kvdb: Sequence is not used by the circuit map")
+}
 func (h *c07BucketH) NestedReadWriteBucket(key []byte) walletdb.ReadWriteBucket {
 	panic("c07 fake kvdb: NestedReadWriteBucket is not used by the circuit map")
 }
@@ -318,12 +320,12 @@ func c07RefKey(k c07K) []byte {
 
 // c07Data is the durable content of a circuit.
 type c07Data struct {
-	height  uint64
-	index   uint16
-	in      c07K
-	hash    [32]byte
-	inAmt   uint64
-	outAmt  uint64
+	height uint64
+	index  uint16
+	in     c07K
+	hash   [32]byte
+	inAmt  uint64
+	outAmt uint64
 }
 
 func c07NewData(name string, in c07K) c07Data {
@@ -435,6 +437,7 @@ func c07Config(p c07Params) {
 //   - bucket circuit-adds: incoming key -> encoded circuit, for exactly the
 //     pending circuits; bucket circuit-keystones: outgoing key -> incoming
 //     key, for exactly the opened circuits.
+//
 // Every such state is reachable (CommitCircuits, OpenCircuits, FailCircuit,
 // restart in the obvious order), and every reachable quiescent state has this
 // form. LoadedFromDisk is arbitrary per circuit.
@@ -1254,6 +1257,7 @@ func VerifC07TrimDeep()    { c07Trim(c07Deep()) }
 func VerifC07RestartDeep() { c07Restart(c07Deep()) }
 func VerifC07RespondDeep() { c07Respond(c07Wide(), -1) }
 
-// thorough tier: batches of three
+// batches of three (OpenWide is in the thorough tier; CommitWide ran clean
+// once, 3872 paths, and is kept for a later round: see NOTES.md)
 func VerifC07CommitWide() { c07Commit(c07Wide()) }
 func VerifC07OpenWide()   { c07Open(c07Wide()) }
